@@ -209,3 +209,15 @@ _extend("C19", "no data-dependent early return in the LU/QR kernels", "Also deci
 _extend("C18", "system-scope rule for the vs_* iterator accessors", "Also decides that per-system iterator state (vs_have_v, ...) is read only where a vs_start_system of the same function dominates.")
 _extend("C08", "header-order independence of the NPD header handlers", "Also decides that no NPD header-line handler depends on a value set by another header line without testing it for unset.")
 _extend("C01", "sorted-map and hash-chain-order rules", "Also decides that abbreviated measurement matrices are placed through a sorted copy of the port map and that the parameter hash keeps the chain order its look-ups rely on (identity of the zero parameter).")
+
+_extend("C09", "scanner-progress cut check over the natural loops of the Touchstone/NPD parsers",
+        "Also decides (termination clause) that every cycle of every token-level loop of the Touchstone and NPD loaders passes through a call that consumes input; "
+        "loops inside the character-level scanners are reported as unclassified.")
+_extend("C03", "borrow-guard shape agreement; signed modulo-index guard; row/column kind agreement of the flag loops",
+        "Also decides that a conditionally released borrowed pointer is compared with the object it was borrowed from, that `table[key % size]` is reached only "
+        "with a validated non-negative key, and that row-extent (column-extent) flag arrays are filled by row-bounded (column-bounded) loops.")
+_extend("C16", "borrow-guard and modulo-index rules", "Also decides that an invalid (negative) parameter index is refused before it selects a hash bucket and that deleting "
+        "parameters frees borrowed vectors exactly once.")
+_extend("C02", "self-difference typestate (memcpy equality facts)",
+        "Also decides that no convergence measure is the element-wise difference of a vector with its own unmodified copy (the recorded finding: the error-term "
+        "tolerance of the iterative solver).")
